@@ -155,7 +155,12 @@ var zzCustomErr = errors.New("zz custom source error")
 
 // zzH_C17_stream: failures of the stream reader caused by the source wrap the source's error.
 func zzH_C17_stream() {
-	n := zzInt("n", 0, 12)
+	unit := zzParam("unit")
+	maxn := 12
+	if unit >= 12 {
+		maxn = 8
+	}
+	n := zzInt("n", 0, maxn)
 	data := zzBytes("data", n)
 	var srcErr error = io.EOF
 	if zzBool("custom") {
@@ -163,7 +168,10 @@ func zzH_C17_stream() {
 	}
 	r := NewBufferReader(bufiox.NewDefaultReader(&zzErrSrc{data: data, err: srcErr}))
 	var err error
-	switch zzParam("unit") {
+	if unit >= 12 {
+		err = r.Skip(zzKnownTypes[unit-12])
+	}
+	switch unit {
 	case 0:
 		_, err = r.ReadBool()
 		zzAssume(n < 1)
@@ -194,8 +202,6 @@ func zzH_C17_stream() {
 	case 10:
 		_, _, _, err = r.ReadMessageBegin()
 	case 11:
-		err = r.Skip(zzTypeCase(zzPick("tcase", 0, 10)))
-	case 12:
 		_, err = r.ReadByte()
 		zzAssume(n < 1)
 	}
@@ -220,8 +226,15 @@ func zzH_C17_stream() {
 
 // zzH_C16_independent: decoded strings/binaries are independent copies.
 func zzH_C16_independent() {
-	n1 := zzInt("n1", 0, zzParam("L"))
-	n2 := zzInt("n2", 0, 300)
+	var n1, n2 int
+	if zzParam("unit")%2 == 1 {
+		// span cache on: one representative length per size class (0, <128, 128.., larger)
+		n1 = [7]int{0, 1, 127, 128, 129, 3000, 140000}[zzPick("n1class", 0, zzParam("NC"))]
+		n2 = [3]int{0, 7, 300}[zzPick("n2class", 0, 2)]
+	} else {
+		n1 = zzInt("n1", 0, zzParam("L"))
+		n2 = zzInt("n2", 0, 300)
+	}
 	c1 := zzBytes("c1", n1)
 	c2 := zzBytes("c2", n2)
 	enc := append(append(append(zzRefU32(uint32(n1)), c1...), zzRefU32(uint32(n2))...), c2...)
